@@ -219,7 +219,8 @@ PROPS = {
     },
     "C10": {
         "v_units": ["logic.py"],
-        "r": [("widgets", lambda n: n.startswith("logic.")), ("composer_leaves", lambda n: "internal" in n)],
+        "r": [("widgets", lambda n: n.startswith("logic.")), ("composer_leaves", lambda n: "internal" in n),
+              ("gadgets", lambda n: n.startswith("truncate."))],
         "claim": "(a) layout for EVERY pair count P <= 127 (loop invariant): append_logic_component::<P> emits P selected rows "
                  "(q_logic = q_c = +1 AND / -1 XOR; accumulators shifted by one row on A,B,D; product wire on C), the unselected carrier row, "
                  "and for P > 0 the two truncation bindings bind_truncation_split(a, left_acc, 2P), (b, right_acc, 2P); returns the out "
@@ -235,7 +236,8 @@ PROPS = {
     },
     "C11": {
         "v_units": ["truncate.py"],
-        "r": [("gadgets", lambda n: n.startswith("bits.component_decomposition")), ("composer_leaves", lambda n: "internal" in n)],
+        "r": [("gadgets", lambda n: n.startswith("bits.component_decomposition") or n.startswith("truncate.") or n.startswith("range.")),
+              ("composer_leaves", lambda n: "internal" in n)],
         "claim": "layout of truncation for EVERY width N <= 254: component_truncate::<N> emits exactly trunc_rows(N) = range check of the "
                  "low part on N bits, then bind_truncation_split (range check of the high part on 255-N bits, recomposition row "
                  "2^N*high + low, closing equality with the input) and assert_canonical_truncation (diff = r_high - high range-checked, "
